@@ -646,7 +646,8 @@ class CPreProcessor:
         """Handle the '#' stringify operator.
 
         Take care of:
-        - single space between the tokens being stringified
+        - a single space between tokens which were separated by whitespace,
+          and nothing between tokens which were not
         - no spaces before first and after last token
         - escape double quotes of strings and backslash inside strings.
         """
@@ -657,7 +658,12 @@ class CPreProcessor:
             else:
                 return t.val
 
-        string_value = '"{}"'.format(" ".join(map(escape, snippet)))
+        parts = []
+        for token in snippet:
+            if parts and (token.space or token.first):
+                parts.append(" ")
+            parts.append(escape(token))
+        string_value = '"{}"'.format("".join(parts))
         return CToken("STRING", string_value, hash_token.space, False, loc)
 
     PP_NUMBER = re.compile(r"\.?[0-9]([eEpP][+-]|[0-9a-zA-Z_.])*")
